@@ -691,7 +691,7 @@ fn c15_universe(tier: &str) -> Vec<Vec<u8>> {
     }
     // all strings of length 3..=maxl over the escape-relevant alphabet
     let al = [0x00u8, b'0', b'"', b'\\', b'\n', 0x7f, 0x80, b'x'];
-    let maxl = if tier == "thorough" { 6 } else { 4 };
+    let maxl = if tier == "thorough" { 7 } else { 4 };
     let mut level: Vec<Vec<u8>> = al.iter().map(|&c| vec![c]).collect();
     for _l in 2..=maxl {
         let mut next = vec![];
